@@ -1,0 +1,6 @@
+//go:build !verif
+// +build !verif
+
+package memfs
+
+func verifPoint(site string, path string) {}
